@@ -32,9 +32,9 @@ func (r *rng) next() uint64 {
 	z = (z ^ (z >> 27)) * 0x94D049BB133111EB
 	return z ^ (z >> 31)
 }
-func (r *rng) intn(n int) int { return int(r.next() % uint64(n)) }
+func (r *rng) intn(n int) int        { return int(r.next() % uint64(n)) }
 func (r *rng) rangeI(lo, hi int) int { return lo + r.intn(hi-lo+1) }
-func (r *rng) chance(p int) bool   { return r.intn(100) < p }
+func (r *rng) chance(p int) bool     { return r.intn(100) < p }
 func pick[T any](r *rng, xs []T) T   { return xs[r.intn(len(xs))] }
 
 // ---- Coq printers ----
@@ -124,6 +124,7 @@ func (s *stats) add(class, key string) {
 		}
 	}
 }
+
 // mismatch records a disagreement; only the first example of each group is kept.
 func (s *stats) mismatchG(group string, v any) {
 	s.MismatchN++
